@@ -381,7 +381,13 @@ def u_broadcast(root):
         return x
     eng = engine(root, FILES, {"IndexedContainer": {"_data": SEQ}, "XYContainer": {"_data": MAT}, "MultiFit": {"_fits": REFSEQ("FitBase")}}, [])
     eng.lib["class:SimpleGaussianError"] = ctor
-    eng.lib["np.asarray"] = eng.lib["np.array"] = lambda e, st, a, kw, n: a[0]
+    def as_array(e, st, a, kw, n):
+        if isinstance(a[0], VNum) and getattr(a[0], "python_number", False):      # np.asarray(plain float): a 0-d array (has .ndim == 0)
+            x = VNum(a[0].e)
+            x.ndim = z3.IntVal(0)
+            return x
+        return a[0]
+    eng.lib["np.asarray"] = eng.lib["np.array"] = as_array
     eng.lib["np.ones"] = lambda e, st, a, kw, n: VSeq(FnArr(lambda k_: z3.RealVal(1)), a[0].e)
     eng.lib["isinstance"] = lambda e, st, a, kw, n: VBool(z3.BoolVal(isinstance(a[0], VNum) and a[0].is_int)) if ast.unparse(n.args[1]) == "int" else (_ for _ in ()).throw(Unsupported("isinstance " + ast.unparse(n)))
     mk(eng, "DataContainerBase", "_add_error_object", result=lambda vw: VStr("name"))
@@ -391,6 +397,8 @@ def u_broadcast(root):
 
     def post_for(kind):
         def post(vw):
+            if vw.flow == "raise":
+                return [("no exception", z3.BoolVal(False))]
             ev = seen.get("err_val")
             if "scalar" in kind:
                 return [("the source is built from the constant vector of the data size", z3.And(z3.BoolVal(isinstance(ev, VSeq)), ev.len == size, z3.ForAll([i], z3.Implies(z3.And(0 <= i, i < size), ev.arr[i] == sval))) if isinstance(ev, VSeq) else z3.BoolVal(False))]
